@@ -20,8 +20,10 @@ pub const TOKENS: [&str; 15] = ["$ENV{", "$", "{", "}", "A", "A.B", "_x", "U", "
 /// the text of another reference — which must stay literal text
 pub const MACRO_TOKENS: [&str; 11] = ["$ENV{A}", "$ENV{_x}", "$ENV{E2}", "$ENV{Aé}", "ENV{A}", "$", "$ENV", "ENV", "{A}", "x", "/"];
 
-pub const VARS: [(&str, &str); 12] = [
+pub const VARS: [(&str, &str); 13] = [
     ("E2", "ENV{A}"),
+    // a set variable whose name starts with an illegal first character: the reference stays literal text
+    (".A", "dotted"),
     ("日", "ri"),
     ("A日", "a-ri"),
     ("A", "v"),
@@ -144,7 +146,8 @@ pub fn check(path: &str, via: Via) -> Option<(String, String)> {
         }
         Via::Roller => {
             // pattern "<path>.{}" — the active file lives elsewhere
-            let pattern_rel = format!("{}.{{}}", path);
+            // (a path that already holds the index placeholder is the pattern itself)
+            let pattern_rel = if path.contains("{}") { path.to_string() } else { format!("{}.{{}}", path) };
             let want0 = expand_ref(&pattern_rel.replace("{}", "0"));
             let want1 = expand_ref(&pattern_rel.replace("{}", "1"));
             let active = sb.path("active.log");
@@ -325,6 +328,14 @@ pub fn run(ctx: &Ctx) -> Report {
         total += n;
         if done < n {
             capped = true;
+        }
+    }
+    // roller patterns whose index placeholder stands *before* a reference (a value with '/' then puts every index
+    // into a directory of its own), in a directory component, or twice
+    for pat in ["g{}$ENV{A.B}", "d/{}$ENV{A.B}.log", "$ENV{A}/{}/x", "{}$ENV{A.B}", "a{}/$ENV{A}{}", "$ENV{A.B}{}/y$ENV{U}", "{}/$ENV{A.B}/z.{}"] {
+        rep.add("evaluations", 1);
+        if let Some((sg, d)) = check(pat, Via::Roller) {
+            rep.violation(format!("index-before-reference:{}", sg), d, json!({"path": pat, "via": "Roller"}));
         }
     }
     // macro-token sequences: text of a reference formed by an earlier substitution
